@@ -378,6 +378,96 @@ func ruleNodeCopy(c *Ctx) {
 	if n == 0 {
 		c.ok("zrnt", token.NoPos, "no ztyp tree node is copied by value anywhere in zrnt")
 	}
+	// a leaf handed out by a tree (a *RootView / *tree.Root obtained from Get, a type assertion or any call) IS the
+	// node every copy of that tree shares: it is never written through (`*leaf = …`, `leaf[i] = …`, copy(leaf[:], …))
+	var nodeIface *types.Interface
+	if tp := c.P.ByPth["github.com/protolambda/ztyp/tree"]; tp != nil {
+		if o := tp.Types.Scope().Lookup("Node"); o != nil {
+			nodeIface, _ = o.Type().Underlying().(*types.Interface)
+		}
+	}
+	if nodeIface == nil {
+		anchorFail("node.copy: ztyp tree.Node not loaded")
+	}
+	var leafViewIface *types.Interface
+	if vp := c.P.ByPth["github.com/protolambda/ztyp/view"]; vp != nil {
+		if o := vp.Types.Scope().Lookup("View"); o != nil {
+			leafViewIface, _ = o.Type().Underlying().(*types.Interface)
+		}
+	}
+	w := 0
+	c.P.funcDecls(func(pk *packages.Package, fd *ast.FuncDecl) {
+		if fd.Body == nil || !strings.Contains(pk.PkgPath, "/eth2/") {
+			return
+		}
+		info := pk.TypesInfo
+		fname := pkgShort(pk.Types) + "." + funcName(fd)
+		defs := reachingDefs(info, fd.Body)
+		// the pointer comes out of a tree: defined by a type assertion or a call (not &local, not new)
+		fromTree := func(e ast.Expr) bool {
+			id, ok := ast.Unparen(e).(*ast.Ident)
+			if !ok {
+				return false
+			}
+			o := info.ObjectOf(id)
+			if o == nil {
+				return false
+			}
+			pt, ok := o.Type().(*types.Pointer)
+			if !ok || !(types.Implements(pt, nodeIface) || (leafViewIface != nil && types.Implements(pt, leafViewIface))) {
+				return false
+			}
+			if _, isArr := pt.Elem().Underlying().(*types.Array); !isArr {
+				return false
+			}
+			for _, d := range defs.defs[o] {
+				if d.def.rhs == nil {
+					continue
+				}
+				switch r := ast.Unparen(d.def.rhs).(type) {
+				case *ast.TypeAssertExpr:
+					return true
+				case *ast.CallExpr:
+					if fid, ok := r.Fun.(*ast.Ident); ok && fid.Name == "new" {
+						continue
+					}
+					if !isConversion(info, r) {
+						return true
+					}
+				}
+			}
+			return false
+		}
+		ast.Inspect(fd.Body, func(nd ast.Node) bool {
+			switch x := nd.(type) {
+			case *ast.AssignStmt:
+				for _, l := range x.Lhs {
+					var base ast.Expr
+					switch lx := ast.Unparen(l).(type) {
+					case *ast.StarExpr:
+						base = lx.X
+					case *ast.IndexExpr:
+						base = lx.X
+					}
+					if base != nil && fromTree(base) {
+						w++
+						c.bad(fname+":write *"+types.ExprString(base), x.Pos(), "%s writes through %s, a leaf handed out by a tree: the node is shared by every copy of that tree (CopyState is persistent), so the other copies change with it and their memoised roots no longer describe them", fname, types.ExprString(base))
+					}
+				}
+			case *ast.CallExpr:
+				if id, ok := x.Fun.(*ast.Ident); ok && id.Name == "copy" && len(x.Args) == 2 {
+					if sl, ok := ast.Unparen(x.Args[0]).(*ast.SliceExpr); ok && fromTree(sl.X) {
+						w++
+						c.bad(fname+":write *"+types.ExprString(sl.X), x.Pos(), "%s copies into %s, a leaf handed out by a tree: the node is shared by every copy of that tree", fname, types.ExprString(sl.X))
+					}
+				}
+			}
+			return true
+		})
+	})
+	if w == 0 {
+		c.ok("zrnt.leaf", token.NoPos, "no leaf handed out by a tree is written through")
+	}
 }
 
 func init() {
@@ -662,6 +752,58 @@ func ruleGlobalView(c *Ctx) {
 	}
 	if n == 0 {
 		c.ok("zrnt", token.NoPos, "no package-level variable holds a mutable tree view")
+	}
+	// a value that depends on the configuration is not remembered in a package-level variable: the first configuration
+	// to come by would decide it for every later one (a default subtree whose depth follows from a preset limit, built
+	// once and handed to the states of another preset)
+	m := 0
+	c.P.funcDecls(func(pk *packages.Package, fd *ast.FuncDecl) {
+		if fd.Body == nil || !strings.Contains(pk.PkgPath, "/eth2/") {
+			return
+		}
+		info := pk.TypesInfo
+		specDep := func(e ast.Expr) bool {
+			dep := false
+			ast.Inspect(e, func(k ast.Node) bool {
+				if id, ok := k.(*ast.Ident); ok {
+					if v, ok := info.ObjectOf(id).(*types.Var); ok && isSpecType(v.Type()) && v.Parent() != pk.Types.Scope() {
+						dep = true
+					}
+				}
+				return !dep
+			})
+			return dep
+		}
+		ast.Inspect(fd.Body, func(k ast.Node) bool {
+			as, ok := k.(*ast.AssignStmt)
+			if !ok || as.Tok != token.ASSIGN {
+				return true
+			}
+			for i, l := range as.Lhs {
+				id, ok := ast.Unparen(l).(*ast.Ident)
+				if !ok {
+					continue
+				}
+				v, ok := info.ObjectOf(id).(*types.Var)
+				if !ok || v.Parent() != pk.Types.Scope() {
+					continue
+				}
+				var rhs ast.Expr
+				if len(as.Rhs) == len(as.Lhs) {
+					rhs = as.Rhs[i]
+				} else if len(as.Rhs) == 1 {
+					rhs = as.Rhs[0]
+				}
+				if rhs != nil && specDep(rhs) {
+					m++
+					c.bad(pkgShort(pk.Types)+".var "+id.Name+"<-spec", as.Pos(), "package-level variable %s is set in %s from a value that depends on the configuration (%s): whichever configuration comes first decides it for all later ones", id.Name, funcName(fd), truncate(types.ExprString(rhs), 80))
+				}
+			}
+			return true
+		})
+	})
+	if m == 0 {
+		c.ok("zrnt.spec", token.NoPos, "no package-level variable is set from a configuration-dependent value")
 	}
 }
 
